@@ -44,7 +44,7 @@ def _case(draw, tier):
            for n in names}
     hashing = draw(st.booleans())
     hstate = {n: draw(st.sampled_from(["same", "changed", "norecord"])) for n in names} if hashing else {}
-    return {"desc": desc, "backend": "slurm", "vector": vec, "hashing": hashing, "hstate": hstate,
+    return {"desc": desc, "invoke": draw(gen.invoke()), "backend": "slurm", "vector": vec, "hashing": hashing, "hstate": hstate,
             "patterns": draw(st.one_of(st.just([]), st.just([]), gen.patterns(names))),
             "future_source": draw(st.sampled_from([False, False, False, True])),
             # a coarse file-system clock: consecutive touch events may get the same timestamp
@@ -62,7 +62,7 @@ def run_case(case):
     hashing = case["hashing"]
     cfg = {"use_spec_hashes": True} if hashing else {}
     viols, labels = [], set()
-    with project.Project(desc, backend="slurm", config=cfg) as proj:
+    with project.Project(desc, backend="slurm", config=cfg, invoke=case.get("invoke")) as proj:
         R = model.Resolved(desc)
         eff, records = setup_project(case, proj, R)
         R = model.Resolved(desc)
